@@ -196,6 +196,8 @@ pub struct Prepared {
     pub eval: Evaluator,
     /// "", "debug", "release" (Rust)
     pub profile: String,
+    /// see oracle::TypeCheck::Soft
+    pub soft: Option<String>,
 }
 
 const BLOCK: usize = 4096;
@@ -455,10 +457,12 @@ pub fn prepare_interp(case: &Case, cx: &BackendCtx) -> Result<Prepared, String> 
         Sem::Lift(_) => Some(declared.ok_or_else(|| format!("declared type `{rtn}` is not modelled"))?),
         _ => None,
     };
-    if let Some(p) = result_type_problem(&sem, expr.ty, decl_for_check, allow_bool) {
-        return Err(p);
-    }
-    Ok(Prepared { case: case.clone(), sem, operand_ty: oty, result_ty: expr.ty, eval: Evaluator::Interp(expr), profile: String::new() })
+    let soft = match result_type_problem(&sem, expr.ty, decl_for_check, allow_bool) {
+        TypeCheck::Ok => None,
+        TypeCheck::Soft(s) => Some(s),
+        TypeCheck::Hard(p) => return Err(p),
+    };
+    Ok(Prepared { case: case.clone(), sem, operand_ty: oty, result_ty: expr.ty, eval: Evaluator::Interp(expr), profile: String::new(), soft })
 }
 
 /// Go: a result that is a temporary assigned in an `if`/`else`.
@@ -476,7 +480,7 @@ pub fn prepare_go_temp(o: &Obs, cx: &BackendCtx) -> Result<Prepared, String> {
     let ea = compile_expr(Lang::Go, &format!("{tyname}({a})"), &[], &cx.helpers).map_err(|u| u.0)?;
     let eb = compile_expr(Lang::Go, &format!("{tyname}({b})"), &[], &cx.helpers).map_err(|u| u.0)?;
     let e = Expr::cond(cond, ea, eb, rty);
-    if let Some(p) = result_type_problem(&sem, e.ty, None, false) {
+    if let TypeCheck::Hard(p) | TypeCheck::Soft(p) = result_type_problem(&sem, e.ty, None, false) {
         return Err(p);
     }
     let case = Case {
@@ -489,7 +493,7 @@ pub fn prepare_go_temp(o: &Obs, cx: &BackendCtx) -> Result<Prepared, String> {
         occurrences: o.occurrences,
         world: o.world.clone(),
     };
-    Ok(Prepared { case, sem, operand_ty: oty, result_ty: rty, eval: Evaluator::Interp(e), profile: String::new() })
+    Ok(Prepared { case, sem, operand_ty: oty, result_ty: rty, eval: Evaluator::Interp(e), profile: String::new(), soft: None })
 }
 
 pub fn backend_ctx(ex: &Extraction, backend: &str) -> BackendCtx {
@@ -511,9 +515,22 @@ pub fn backend_ctx(ex: &Extraction, backend: &str) -> BackendCtx {
 
 // --------------------------------------------------------------- native backends
 
+#[derive(Clone)]
+pub struct NPrep {
+    pub id: usize,
+    pub case: Case,
+    pub sem: Sem,
+    pub operand_ty: Ty,
+    pub result_ty: Ty,
+    pub oname: String,
+    pub rname: String,
+    /// Rust: expression type inferred by rustc because it does not type-check against `rname`
+    pub infer: bool,
+}
+
 pub struct NativePlan {
     pub lang: NLang,
-    pub prepared: Vec<(usize, Case, Sem, Ty, Ty, String, String)>, // id, case, sem, operand ty, result ty, operand tyname, result tyname
+    pub prepared: Vec<NPrep>,
     pub inconclusive: Vec<(Case, String)>,
 }
 
@@ -529,7 +546,7 @@ pub fn plan_native(cases: &[Case], cx: &BackendCtx) -> NativePlan {
         };
         match type_names(&cx.backend, &cx.types, &sem) {
             Ok((o, r)) => match (native::type_by_name(lang, &o), native::type_by_name(lang, &r)) {
-                (Some(ot), Some(rt)) => plan.prepared.push((i, c.clone(), sem, ot, rt, o, r)),
+                (Some(ot), Some(rt)) => plan.prepared.push(NPrep { id: i, case: c.clone(), sem, operand_ty: ot, result_ty: rt, oname: o, rname: r, infer: false }),
                 _ => plan.inconclusive.push((c.clone(), format!("types `{o}` / `{r}` are not modelled by the native wrapper"))),
             },
             Err(e) => plan.inconclusive.push((c.clone(), e)),
@@ -539,7 +556,7 @@ pub fn plan_native(cases: &[Case], cx: &BackendCtx) -> NativePlan {
 }
 
 pub fn native_sources(plan: &NativePlan, cx: &BackendCtx, only: Option<usize>) -> Result<String, String> {
-    let ncases: Vec<NCase> = plan.prepared.iter().filter(|p| only.map(|o| o == p.0).unwrap_or(true)).map(|p| NCase { id: p.0, expr: p.1.template.clone(), operand_ty: p.5.clone(), result_ty: p.6.clone() }).collect();
+    let ncases: Vec<NCase> = plan.prepared.iter().filter(|p| only.map(|o| o == p.id).unwrap_or(true)).map(|p| NCase { id: p.id, expr: p.case.template.clone(), operand_ty: p.oname.clone(), result_ty: p.rname.clone(), infer: p.infer }).collect();
     match plan.lang {
         NLang::Rust => {
             // the scalar world's runtime module holds every helper the scalar arms use
@@ -587,21 +604,34 @@ pub fn build_native(plan: &mut NativePlan, cx: &BackendCtx, dir: &Path) -> Resul
         }
         tried_individual = true;
         // find the offenders one by one
-        let ids: Vec<usize> = plan.prepared.iter().map(|p| p.0).collect();
+        let ids: Vec<usize> = plan.prepared.iter().map(|p| p.id).collect();
         let mut offenders = vec![];
         for id in ids {
             let src1 = native_sources(plan, cx, Some(id))?;
             if let Err(e) = native::build(plan.lang, dir, &format!("exprsem_{}_probe", cx.backend), &src1, profiles[0]) {
+                if plan.lang == NLang::Rust {
+                    // does the expression compile at its own (inferred) type?
+                    let pos = plan.prepared.iter().position(|p| p.id == id).unwrap();
+                    plan.prepared[pos].infer = true;
+                    let src2 = native_sources(plan, cx, Some(id))?;
+                    if native::build(plan.lang, dir, &format!("exprsem_{}_probe", cx.backend), &src2, profiles[0]).is_ok() {
+                        continue;
+                    }
+                    plan.prepared[pos].infer = false;
+                }
                 offenders.push((id, first_error_line(&e)));
             }
+        }
+        if offenders.is_empty() && plan.prepared.iter().any(|p| p.infer) {
+            continue;
         }
         if offenders.is_empty() {
             return Err(format!("native wrapper does not compile as a whole: {}", first_error_line(&err)));
         }
         for (id, e) in offenders {
-            if let Some(pos) = plan.prepared.iter().position(|p| p.0 == id) {
+            if let Some(pos) = plan.prepared.iter().position(|p| p.id == id) {
                 let p = plan.prepared.remove(pos);
-                plan.inconclusive.push((p.1, format!("wrapper `{}` -> `{}` does not compile: {e}", p.5, p.6)));
+                plan.inconclusive.push((p.case, format!("wrapper `{}` -> `{}` does not compile: {e}", p.oname, p.rname)));
             }
         }
     }
@@ -667,6 +697,7 @@ pub struct Outcome {
     pub stats: Stats,
     pub domain: String,
     pub witness: BTreeMap<String, Value>,
+    pub soft: Option<String>,
 }
 
 pub fn outcome_of(p: &Prepared, stats: Stats, domain: &Domain) -> Outcome {
@@ -674,11 +705,11 @@ pub fn outcome_of(p: &Prepared, stats: Stats, domain: &Domain) -> Outcome {
     for (class, (_, _, input, got)) in &stats.bad {
         witness.insert(class.clone(), witness_json(p, class, *input, *got, &domain.describe()));
     }
-    Outcome { key: format!("{}{}", p.case.key(), if p.profile.is_empty() { String::new() } else { format!(":{}", p.profile) }), prepared_backend: p.case.backend.clone(), inst: p.case.inst.clone(), is_cast: p.case.is_cast, template: p.case.template.clone(), profile: p.profile.clone(), stats, domain: domain.describe(), witness }
+    Outcome { key: format!("{}{}", p.case.key(), if p.profile.is_empty() { String::new() } else { format!(":{}", p.profile) }), prepared_backend: p.case.backend.clone(), inst: p.case.inst.clone(), is_cast: p.case.is_cast, template: p.case.template.clone(), profile: p.profile.clone(), stats, domain: domain.describe(), witness, soft: p.soft.clone() }
 }
 
 pub fn outcome_to_json(o: &Outcome) -> Value {
-    json!({"key": o.key, "backend": o.prepared_backend, "inst": o.inst, "is_cast": o.is_cast, "template": o.template, "profile": o.profile, "stats": o.stats.to_json(), "domain": o.domain, "witness": o.witness})
+    json!({"key": o.key, "backend": o.prepared_backend, "inst": o.inst, "is_cast": o.is_cast, "template": o.template, "profile": o.profile, "stats": o.stats.to_json(), "domain": o.domain, "witness": o.witness, "soft": o.soft})
 }
 
 pub fn outcome_from_json(v: &Value) -> Outcome {
@@ -692,6 +723,7 @@ pub fn outcome_from_json(v: &Value) -> Outcome {
         stats: Stats::from_json(&v["stats"]),
         domain: v["domain"].as_str().unwrap_or("").to_string(),
         witness: v["witness"].as_object().map(|m| m.iter().map(|(k, v)| (k.clone(), v.clone())).collect()).unwrap_or_default(),
+        soft: v["soft"].as_str().map(|s| s.to_string()),
     }
 }
 
